@@ -24,18 +24,23 @@
 (* A renewal whose REPLY is lost cannot be recovered by the protocol (the holder *)
 (* never learns the new version): such a history is rejected like any other and  *)
 (* classified by the checker as the recorded known finding (DESIGN.md).           *)
+(* (d) (property C04, enforced when CheckGone): once the observed holder's Unlock *)
+(*     has returned the lock record is gone - every probe of the store finds it   *)
+(*     absent until somebody creates it again.  Probes and creations are logged   *)
+(*     under the facade's lock, in the order they reached the store.              *)
 EXTENDS TraceLib
 
-CONSTANT Slack      \* microseconds of tolerance on "by then" bounds (generous, one-sided)
+CONSTANT Slack,     \* microseconds of tolerance on "by then" bounds (generous, one-sided)
+         CheckGone  \* enforce (d)
 
-VARIABLES held, holder, alive, exp, cexp, replyLost, unlockedAt, casAfter, wacq, kind, ttl, l
+VARIABLES held, holder, alive, exp, cexp, replyLost, unlockedAt, casAfter, wacq, kind, ttl, created, l
 
 Ev == Trace[l]
-vars == <<held, holder, alive, exp, cexp, replyLost, unlockedAt, casAfter, wacq, kind, ttl, l>>
+vars == <<held, holder, alive, exp, cexp, replyLost, unlockedAt, casAfter, wacq, kind, ttl, created, l>>
 Same(v) == UNCHANGED v
 
 Init == /\ held = FALSE /\ holder = 1 /\ alive = TRUE /\ exp = 0 /\ cexp = 0 /\ replyLost = FALSE
-        /\ unlockedAt = -1 /\ casAfter = 0 /\ wacq = FALSE /\ kind = "" /\ ttl = 0 /\ l = 1
+        /\ unlockedAt = -1 /\ casAfter = 0 /\ wacq = FALSE /\ kind = "" /\ ttl = 0 /\ created = FALSE /\ l = 1
 
 \* (a) applies.  It is enforced after a reply-lost renewal too: the checker then classifies the
 \* rejection by the replylost event in the history (known finding) instead of exempting it here.
@@ -43,20 +48,21 @@ Protected == held /\ alive
 
 Reset == /\ Ev.e = "reset"
          /\ held' = FALSE /\ holder' = 1 /\ alive' = TRUE /\ exp' = 0 /\ cexp' = 0 /\ replyLost' = FALSE
-         /\ unlockedAt' = -1 /\ casAfter' = 0 /\ wacq' = FALSE /\ kind' = Ev.kind /\ ttl' = Ev.ttl
+         /\ unlockedAt' = -1 /\ casAfter' = 0 /\ wacq' = FALSE /\ kind' = Ev.kind /\ ttl' = Ev.ttl /\ created' = FALSE
 
 \* the caller under observation: caller 1 first; in the death scenario the waiter (caller 3) once it has
 \* acquired - it waited long for the lock, and its own lease must be in order from then on
 Acq == /\ Ev.e = "acq"
        /\ held' = TRUE /\ holder' = Ev.p /\ alive' = TRUE /\ unlockedAt' = -1 /\ casAfter' = 0
        /\ exp' = IF Ev.p = holder THEN exp ELSE cexp      \* a new holder: the expiration its own Create wrote
-       /\ Same(<<cexp, replyLost, wacq, kind, ttl>>)
+       /\ Same(<<cexp, replyLost, wacq, kind, ttl, created>>)
 
 Create == /\ Ev.e = "create"
           /\ IF Ev.p = holder
              THEN exp' = (IF Ev.res = "ok" THEN Ev.exp ELSE exp) /\ cexp' = cexp
              ELSE /\ Protected => Ev.res # "ok"          \* nobody else creates the record while it is held
                   /\ exp' = exp /\ cexp' = IF Ev.res = "ok" THEN Ev.exp ELSE cexp
+          /\ created' = (created \/ Ev.res = "ok")
           /\ Same(<<held, holder, alive, replyLost, unlockedAt, casAfter, wacq, kind, ttl>>)
 
 Cas == /\ Ev.e = "cas" /\ Ev.p = holder
@@ -72,51 +78,54 @@ Cas == /\ Ev.e = "cas" /\ Ev.p = holder
                /\ casAfter' = 1 /\ Same(<<exp, replyLost>>)
           ELSE \* between rel and unlocked: a renewal in flight may still succeed or fail
                Same(<<exp, replyLost, casAfter>>)
-       /\ Same(<<held, holder, alive, cexp, unlockedAt, wacq, kind, ttl>>)
+       /\ Same(<<held, holder, alive, cexp, unlockedAt, wacq, kind, ttl, created>>)
 
 \* renewal calls of a caller that is not (any more) the one under observation (a dead process's calls never
 \* reach the store; a party that acquired but is not observed as holder renews its own record)
 CasOther == /\ Ev.e = "cas" /\ Ev.p # holder
-            /\ Same(<<held, holder, alive, exp, cexp, replyLost, unlockedAt, casAfter, wacq, kind, ttl>>)
+            /\ Same(<<held, holder, alive, exp, cexp, replyLost, unlockedAt, casAfter, wacq, kind, ttl, created>>)
 
-Del == /\ Ev.e = "del" /\ Same(<<held, holder, alive, exp, cexp, replyLost, unlockedAt, casAfter, wacq, kind, ttl>>)
+Del == /\ Ev.e = "del" /\ Same(<<held, holder, alive, exp, cexp, replyLost, unlockedAt, casAfter, wacq, kind, ttl, created>>)
 
 Probe == /\ Ev.e = "probe"
          /\ Protected => Ev.present                                                   \* (a)
          /\ (~alive /\ ~wacq /\ Ev.t > exp + Slack) => ~Ev.present                     \* (b)
-         /\ Same(<<held, holder, alive, exp, cexp, replyLost, unlockedAt, casAfter, wacq, kind, ttl>>)
+         /\ (CheckGone /\ ~held /\ unlockedAt >= 0 /\ ~created) => ~Ev.present         \* (d)
+         /\ Same(<<held, holder, alive, exp, cexp, replyLost, unlockedAt, casAfter, wacq, kind, ttl, created>>)
 
 Try == /\ Ev.e = "try"
        /\ Protected => ~Ev.ok                                                          \* (a)
-       /\ Same(<<held, holder, alive, exp, cexp, replyLost, unlockedAt, casAfter, wacq, kind, ttl>>)
+       /\ Same(<<held, holder, alive, exp, cexp, replyLost, unlockedAt, casAfter, wacq, kind, ttl, created>>)
 
 Rel == /\ Ev.e = "rel"
        /\ held' = IF Ev.p = holder THEN FALSE ELSE held
+       \* (d) counts creations from here on: until the holder's Delete reaches the store nobody else can create
+       /\ created' = IF Ev.p = holder THEN FALSE ELSE created
        /\ Same(<<holder, alive, exp, cexp, replyLost, unlockedAt, casAfter, wacq, kind, ttl>>)
 
 Unlocked == /\ Ev.e = "unlocked"
             /\ unlockedAt' = IF Ev.p = holder THEN Ev.t ELSE unlockedAt
-            /\ Same(<<held, holder, alive, exp, cexp, replyLost, casAfter, wacq, kind, ttl>>)
+            /\ Same(<<held, holder, alive, exp, cexp, replyLost, casAfter, wacq, kind, ttl, created>>)
 
 Die == /\ Ev.e = "die" /\ alive' = FALSE
-       /\ Same(<<held, holder, exp, cexp, replyLost, unlockedAt, casAfter, wacq, kind, ttl>>)
+       /\ Same(<<held, holder, exp, cexp, replyLost, unlockedAt, casAfter, wacq, kind, ttl, created>>)
 
 WAcq == /\ Ev.e = "wacq"
         /\ ~Protected                                   \* (a): not while a live holder holds
         /\ ~alive => Ev.t <= exp + Slack                \* (b): promptly after the lease ran out
         /\ wacq' = TRUE
-        /\ Same(<<held, holder, alive, exp, cexp, replyLost, unlockedAt, casAfter, kind, ttl>>)
+        /\ Same(<<held, holder, alive, exp, cexp, replyLost, unlockedAt, casAfter, kind, ttl, created>>)
 
 \* after everything was released the lock is free: the contender's TryLock succeeds (no record was left behind
 \* or kept alive by a renewal of a finished tenure).  A failed re-acquisition through the released Locker
 \* (reacqfail) is never consumable.
 FreeTry == /\ Ev.e = "freetry" /\ Ev.ok
-           /\ Same(<<held, holder, alive, exp, cexp, replyLost, unlockedAt, casAfter, wacq, kind, ttl>>)
+           /\ Same(<<held, holder, alive, exp, cexp, replyLost, unlockedAt, casAfter, wacq, kind, ttl, created>>)
 
 \* the waiter giving up after the holder died is (b) violated: never consumable
 End == /\ Ev.e = "end"
        /\ (kind = "death") => wacq
-       /\ Same(<<held, holder, alive, exp, cexp, replyLost, unlockedAt, casAfter, wacq, kind, ttl>>)
+       /\ Same(<<held, holder, alive, exp, cexp, replyLost, unlockedAt, casAfter, wacq, kind, ttl, created>>)
 
 Next == /\ l <= Len(Trace) /\ l' = l + 1
         /\ \/ Reset \/ Acq \/ Create \/ Cas \/ CasOther \/ Del \/ Probe \/ Try \/ FreeTry \/ Rel \/ Unlocked \/ Die \/ WAcq \/ End
